@@ -56,7 +56,8 @@ Explained(e) ==
 Violated(e) ==
   LET o == ObsOf(e) IN
   (IF ~C01_OK(o) THEN {"C01"} ELSE {})
-  \cup (IF PreOK(e) /\ C01_OK(o)
+  \* (the other predicates only need a well-formed pre-state: a corrupt post-state also fails to be the specified effect)
+  \cup (IF PreOK(e) /\ DOMAIN o.postpar = DOMAIN o.prepar /\ DOMAIN o.postch = DOMAIN o.prech
         THEN (IF (e.haslog \/ e.exc \notin {"HookFault", "RecursionError"}) /\ ~C02_OK(o) THEN {"C02"} ELSE {})
              \cup (IF (e.haslog \/ Refused(o)) /\ ~C03_OK(o) THEN {"C03"} ELSE {})
              \cup (IF e.haslog /\ ~C16_OK(o) THEN {"C16"} ELSE {})
